@@ -277,6 +277,21 @@ class ImplWorld:
                 self.node(op["t"], op["n"]).filter(pred)
         elif k == "w.del":
             del t[self.del_key(op)]
+        elif k == "w.dead":
+            dead = self.graveyard[op["k"] % len(self.graveyard)]
+            what = op["what"]
+            if what == "move":
+                dead.move_to(self.node(op["t"], op["to"]))
+            elif what == "add":
+                dead.add(pool.objs[op["a"]])
+            elif what == "remove":
+                dead.remove()
+            elif what == "set_data":
+                dead.set_data(pool.objs[op["a"]])
+            elif what == "remove_children":
+                dead.remove_children()
+            else:
+                dead.rename("Q-dead")
         elif k == "w.meta":
             n = self.node(op["t"], op["n"])
             kind = op["kind"]
@@ -325,6 +340,8 @@ def model_op(op, impl):
                 pass
             if isinstance(key, (int, str)) and not isinstance(key, bool):
                 m["did"] = key
+    if op["op"] == "w.dead":
+        return {"op": "w.obs"}       # no operation of the model: the observable state must stay as it is
     if op["op"] == "w.addnode" and op.get("via") == "copy_to":
         m["kind"] = None   # copy_to() has no `kind` argument
     if op["op"] == "w.setdata" and op.get("via") == "rename":
